@@ -218,6 +218,9 @@ func genC17(s uint64, idx int) *Plan {
 			p.CallerServerName = core.Pick(r, []string{"override.example", "inner.secret.example"})
 		}
 	}
+	if !p.CallerNil && idx%16 == 9 {
+		p.CallerMaxVersion = core.Pick(r, []uint16{0x0303, 0x0303, 0x0302})
+	}
 	p.MaxConc = r.IntN(4)
 	if d := core.Pick(r, []int64{0, 0, 20, 300}); d > 0 {
 		p.DelayNs = d*int64(time.Millisecond) + 177147 // 3^11
